@@ -11,4 +11,9 @@ QaKinds == {"ow", "ws", "sa", "aw", "or", "cr"}
 QfKinds == {"or", "cr", "cf", "fe", "fk", "p"}
 UpdKinds == {"ou", "us", "cu", "au", "or", "rs", "cr", "fk"}
 AllKinds == CoreKinds \cup {"ou", "us", "cu", "au"}
+QuKinds == {"ou", "us", "cu", "au", "or", "cr"}
+Qf1Kinds == {"or", "cr", "cf", "fk"}
+Qf2Kinds == {"or", "cr", "fe", "p"}
+Qu1Kinds == {"ou", "us", "cu", "fk"}
+Qu2Kinds == {"ou", "us", "au", "or", "cr"}
 ====
